@@ -48,7 +48,10 @@ def run_suite(res, prop, tier, seed, n_quick, n_thorough, n_req=1, force=None, o
                     res.violation(f'{prop} oracle: {why}', {'property': prop, 'input': desc, 'request': f'{rq.op}:{rq.label}',
                                                             'implementation_says': out[:3000], 'reason': why, 'model_command': cmd[:6000]},
                                   f'{prop}|{rq.op}|{why[:60]}')
-        kinds = '+'.join(sorted(set(str(p[0]) for p in sc['plan'])))[:60]
+        for pl in sc['plan']:
+            res.notes.setdefault('attempt_kinds', {})
+            res.notes['attempt_kinds'][str(pl[0])] = res.notes['attempt_kinds'].get(str(pl[0]), 0) + 1
+        kinds = 'answered' if any(p[0] == 'good' for p in sc['plan']) else 'faults-only'
         cases.append(Case(comp, cmd, proj(out), desc, domain=False, kind=f'{sc["reqs"][0].op}/{kinds}',
                           nontrivial=any(len(r['tx']) > 0 for r in results), proj=proj))
     return drop_ties(res, cases)
